@@ -611,6 +611,12 @@ def _nas_streams(ctx, cs):
          {"kind": {}, "upa": {30: [1, 2, 3, 4, 5, 6, 0]}, "style": "lean-example",
           "upq": {0: [0, 0, 0, 0, 0, 0, 1, 0, 0, 0, 0, 0, 0, 1, 1, 0]}})
     ctx.count("upqsetpv:lean-examples")
+    # SECONCT type connection whose downstream `upids` is EMPTY: pandas answers the empty boolean indexer with a
+    # ValueError (an indexer of any other wrong length is an IndexError)
+    emp = N.from_plain({"selist": [[0, 0], [40, 0]], "uset": {"0": [[30, 0, b]], "40": [[30, 0, q], [42, 0, o]]},
+                        "dnids": {"40": [2000000002]}, "maps": {"40": []}, "upids": {"0": [], "40": [0, 0]}})
+    both(emp, "-fixed", [40], [0])
+    ctx.count("nas-damage:upids-empty")
     nsep = 0
     for it in range(ctx.pick(150, 1500)):
         # every tenth dictionary has a forced chain of depth 3 or 4 below the residual
@@ -1218,7 +1224,7 @@ def correspondence(ctx):
         "upqsetpv:key-error", "nas-real-dictionary",
         "upqsetpv:separate", "upqsetpv:separate-real", "upqsetpv:depth-3", "upqsetpv:depth-4",
         "upqsetpv:several-upstream", "upqsetpv:several-upstream-above-residual", "upqsetpv:maps-reordered",
-        "upqsetpv:maps-reordered-above-residual", "upqsetpv:recursion-error", "upqsetpv:shared-boundary", "upqsetpv:later-upstream-overwrites", "upqsetpv:lean-examples",
+        "upqsetpv:maps-reordered-above-residual", "upqsetpv:recursion-error", "upqsetpv:shared-boundary", "upqsetpv:later-upstream-overwrites", "upqsetpv:lean-examples", "nas-damage:upids-empty",
         "xyz:all-rows", "xyz:some-rows", "xyz:none", "xyz-input:docstring", "xyz-input:rotation-rows",
         "xyz-input:sheared", "xyz-input:perturbed", "xyz-input:exact-only", "xyz-input:row-deleted", "xyz-input:non-orthogonal",
         "mat_intersect-order:unsorted-values", "mat_intersect-order:keep0", "mat_intersect-order:keep1",
